@@ -8,6 +8,7 @@
 From Coq Require Import ZArith List Bool.
 From BV Require Import Lib.Cases Model.LaxSem Model.Restart Model.Pool
      Proofs.PoolJobs Proofs.PoolInv Proofs.PoolCor.
+From BV Require Gen.G_pool_shape.
 Import ListNotations.
 Open Scope Z_scope.
 
@@ -64,6 +65,17 @@ Theorem C01_result_touches_only_its_job : forall s j i p j',
     j <> j' -> 0 <= j' -> get_job (fst (do_ready s j i p)) j' = get_job s j'.
 Proof. exact ready_frame. Qed.
 Print Assumptions C01_result_touches_only_its_job.
+
+(* the decision points the model copies for C01 are written in the code as the model assumes: a job keeps its first outcome; a put failure fails its own job and the handler goes on; Terminated only after terminate_job
+   (facts computed from the AST of /repo/billiard/pool.py on this run; see translate/kernels/poolshape.py) *)
+Theorem C01_code_shape :
+  G_pool_shape.apply_set_first_writer_wins = true /\
+  G_pool_shape.put_failure_fails_own_job = true /\
+  G_pool_shape.put_failure_goes_on_with_next_task = true /\
+  G_pool_shape.terminated_only_for_terminate_job = true /\
+  G_pool_shape.gone_owner_test = true.
+Proof. repeat split; reflexivity. Qed.
+Print Assumptions C01_code_shape.
 
 (* non-vacuity: a history in which a job is resolved by a time limit, its late result and
    a duplicate are ignored, and a second job is lost with its worker *)
